@@ -143,9 +143,21 @@ func c14Body(x *explore.Ctx, ui int) {
 
 	urlStr := c14URLs[ui]
 	hv := c14Hdrs[x.Choose(len(c14Hdrs), "requestHeader")]
+	// one dimension: what is requested and what the reply selects (so that "requested, echoed, but the
+	// reply is otherwise invalid" costs two deviations)
 	var subp []string
-	if x.Choose(2, "Dialer.Subprotocols") == 1 {
+	replyProto := ""
+	switch x.Choose(6, "Dialer.Subprotocols/reply-Protocol") {
+	case 1:
 		subp = []string{"chat", "superchat"}
+	case 2:
+		subp, replyProto = []string{"chat", "superchat"}, "chat"
+	case 3:
+		subp, replyProto = []string{"chat", "superchat"}, "superchat"
+	case 4:
+		subp, replyProto = []string{"chat", "superchat"}, "other"
+	case 5:
+		replyProto = "chat"
 	}
 	enableComp := x.Choose(2, "Dialer.EnableCompression") == 1
 	status := c14Status[x.Choose(len(c14Status), "reply-status")]
@@ -214,6 +226,9 @@ func c14Body(x *explore.Ctx, ui int) {
 			}
 			if enableComp {
 				fmt.Fprintf(&b, "Sec-WebSocket-Extensions: permessage-deflate; server_no_context_takeover; client_no_context_takeover\r\n")
+			}
+			if replyProto != "" {
+				fmt.Fprintf(&b, "Sec-WebSocket-Protocol: %s\r\n", replyProto)
 			}
 			fmt.Fprintf(&b, "X-Reply: yes\r\n")
 			hasBody := !strings.HasPrefix(status, "101") && !strings.HasPrefix(status, "100")
